@@ -17,6 +17,7 @@ DEFAULT_OPTS = {
     'fold': True,
     'fold_unfaced': False,  # cash games: fold with nothing to call (warned)
     'probe': False,        # out-of-domain arguments become events if (and only if) the query accepts them
+    'show_players': False,  # default-argument show/muck for an explicit player out of showdown order
 }
 
 
@@ -155,7 +156,11 @@ def legal_menu(st, o=DEFAULT_OPTS):
                         add((('show_or_muck_hole_cards', t), 1))
                 continue
             add((('show_or_muck_hole_cards', v), 0 if v is None else 1))
-    elif mix and st.showdown_indices and st.street is not None:
+    if o.get('show_players') and st.street is not None and len(st.showdown_indices) > 1:
+        for j in list(st.showdown_indices)[1:]:
+            if _yes(st.can_show_or_muck_hole_cards, None, j):
+                add((('show_or_muck_hole_cards', None, j), 1))
+    if mix and st.showdown_indices and st.street is not None and not st.can_show_or_muck_hole_cards():
         i = st.showdown_indices[0]
         k = len(st.hole_cards[i])
         if len(st.deck_cards) >= k:
